@@ -316,23 +316,26 @@ class CFGBuilder(AstVisitor[BB | None]):
         check_modifiers_enabled(node)
         self._validate_modified_block(node)
 
-        cfg = CFGBuilder().build(node.body, True, self.globals)
+        modifiers = []
+        for item in node.items:
+            item.context_expr, bb = ExprBuilder.build(item.context_expr, self.cfg, bb)
+            modifiers.append(self._handle_withitem(item))
+
+        # The body must satisfy the requirements of this block's modifiers and of
+        # every enclosing unitary context (decorator flags or outer `with` blocks).
+        own = ModifiedBlock(cfg=self.cfg, **dict(ast.iter_fields(node)))
+        for modifier in modifiers:
+            own.push_modifier(modifier)
+        flags = own.flags() | self.cfg.unitary_flags
+
+        cfg = CFGBuilder().build(node.body, True, self.globals, flags)
         new_node = ModifiedBlock(
             cfg=cfg,
             **dict(ast.iter_fields(node)),
         )
-
-        for item in node.items:
-            item.context_expr, bb = ExprBuilder.build(item.context_expr, self.cfg, bb)
-            modifier = self._handle_withitem(item)
+        for modifier in modifiers:
             new_node.push_modifier(modifier)
-
-        # FIXME: Currently, the unitary flags is not set correctly if there are nested
-        # `with` blocks. This is because the outer block's unitary flags are not
-        # propagated to the outer block. The following line should calculate the sum
-        # of the unitary flags of the outer block and modifiers applied in this
-        # `with` block.
-        cfg.unitary_flags = new_node.flags()
+        cfg.unitary_flags = flags
 
         set_location_from(new_node, node)
         bb.statements.append(new_node)
